@@ -261,7 +261,14 @@ fn gram_determinant_ldlt<const D: usize>(gram_matrix: Matrix<D>) -> f64 {
             }
         }
     }
-    match gram_matrix.ldlt(DEFAULT_SINGULAR_TOL) {
+    // The pivots of a Gram matrix scale with the squared edge lengths, so the singular
+    // tolerance has to grow with them: otherwise the rounding residue of an exactly flat
+    // simplex with large coordinates passes for a (tiny) positive determinant.
+    let mut scale = 1.0_f64;
+    for i in 0..D {
+        scale = scale.max(crate::geometry::matrix::matrix_get(&gram_matrix, i, i));
+    }
+    match gram_matrix.ldlt(DEFAULT_SINGULAR_TOL * scale) {
         Ok(ldlt) => ldlt.det(),
         Err(LaError::Singular { .. }) => 0.0,
         Err(LaError::NonFinite { .. }) => f64::NAN,
